@@ -11,7 +11,7 @@
    except where said).  PEM armour, encoding/asn1 structure handling, PBKDF2 and AES-CBC are modelled by
    their contracts (abstract in a Section), not verified. *)
 From Coq Require Import List NArith Arith Bool.
-From GmsmVerif Require Import Lib.Outcome Ser.SerBytes.
+From GmsmVerif Require Import Lib.Outcome Ser.SerBytes Ser.SerDER.
 Import ListNotations.
 Open Scope N_scope.
 
@@ -331,4 +331,72 @@ Definition GMX509KeyPairsSingle (c : certk) (k : keyk) : bool :=
   match c with
   | CBad => false
   | _ => if is_sm2_cert c then matchKeyCert c k else X509KeyPair c k
+  end.
+
+(* ================= PEM input of the loaders: which block is used ========================================= *)
+(* labels of PEM blocks as the loaders distinguish them *)
+Inductive plabel :=
+| LCert               (* "CERTIFICATE" *)
+| LPrivKey            (* "PRIVATE KEY" *)
+| LSuffixPrivKey      (* any other type ending in " PRIVATE KEY": "EC PRIVATE KEY", "RSA PRIVATE KEY", "ENCRYPTED PRIVATE KEY" *)
+| LOtherLabel.        (* "EC PARAMETERS", "PUBLIC KEY", ... *)
+
+(* what the bytes of a block are, whatever its label says *)
+Inductive pcontent :=
+| PCert (c : certk)                    (* a certificate (CBad: does not parse) *)
+| PPkcs1Rsa (n : N)                    (* PKCS#1 RSAPrivateKey *)
+| PPkcs8Rsa (n : N)
+| PPkcs8Ecdsa (curve : nat) (x y : N)  (* PKCS#8 with a curve the standard library knows *)
+| PPkcs8Other                          (* PKCS#8 of another algorithm (Ed25519 ...) *)
+| PPkcs8Sm2 (x y : N)                  (* PKCS#8 id-ecPublicKey on the SM2 curve: x509.ParsePKCS8UnecryptedPrivateKey *)
+| PSec1                                (* SEC 1 ECPrivateKey ("EC PRIVATE KEY" of openssl / gmssl): no parser in gmtls *)
+| PEncrypted                           (* EncryptedPrivateKeyInfo: the loaders take no password *)
+| PJunk.
+
+Definition pemfile := list (plabel * pcontent).
+
+(* func getCert(certPEMBlock) / the first loop of X509KeyPair: all CERTIFICATE blocks in order; None = error *)
+Definition getCert (f : pemfile) : option (list pcontent) :=
+  match map snd (filter (fun b => match fst b with LCert => true | _ => false end) f) with
+  | [] => None
+  | l => Some l
+  end.
+
+(* func getKey(keyPEMBlock) / the second loop of X509KeyPair: the FIRST block whose type is "PRIVATE KEY" or ends
+   in " PRIVATE KEY"; None = error *)
+Fixpoint getKey (f : pemfile) : option pcontent :=
+  match f with
+  | [] => None
+  | (LPrivKey, c) :: _ | (LSuffixPrivKey, c) :: _ => Some c
+  | _ :: r => getKey r
+  end.
+
+(* func parsePrivateKey(der): PKCS#1, then the standard PKCS#8 parser (RSA and ECDSA only, anything else it parses is
+   an error at once), then the SM2 PKCS#8 parser *)
+Definition parsePrivateKey (c : pcontent) : keyk :=
+  match c with
+  | PPkcs1Rsa n | PPkcs8Rsa n => KRsa n
+  | PPkcs8Ecdsa cu x y => KEcdsa cu x y
+  | PPkcs8Sm2 x y => KSm2 x y
+  | _ => KBad
+  end.
+
+Definition certOf (c : pcontent) : certk := match c with PCert k => k | _ => CBad end.
+
+(* the loaders on PEM input: the leaf is the first CERTIFICATE block, the key the first key-labelled block *)
+Definition X509KeyPair_pem (cf kf : pemfile) : bool :=
+  match getCert cf, getKey kf with
+  | Some (c :: _), Some k => X509KeyPair (certOf c) (parsePrivateKey k)
+  | _, _ => false
+  end.
+Definition GMX509KeyPairsSingle_pem (cf kf : pemfile) : bool :=
+  match getCert cf, getKey kf with
+  | Some (c :: _), Some k => GMX509KeyPairsSingle (certOf c) (parsePrivateKey k)
+  | _, _ => false
+  end.
+Definition GMX509KeyPairs_pem (cf kf ecf ekf : pemfile) : bool :=
+  match getCert cf, getCert ecf, getKey kf, getKey ekf with
+  | Some (c :: _), Some (ec :: _), Some k, Some ek =>
+      GMX509KeyPairs (certOf c) (parsePrivateKey k) (certOf ec) (parsePrivateKey ek)
+  | _, _, _, _ => false
   end.
